@@ -729,9 +729,22 @@ def rule_itermut(tree: Tree) -> RuleResult:
             if isinstance(it, ast.Subscript) and isinstance(it.slice, ast.Slice):
                 continue
             hits = []
+            # other names of the same object: `a = <base>` / `a, b = <base>, …` anywhere in the function (an alias is not a copy)
+            aliases = {base}
+            for _ in range(3):
+                for a_ in body_walk(f.node):
+                    if isinstance(a_, ast.Assign) and len(a_.targets) == 1:
+                        pairs = []
+                        if isinstance(a_.targets[0], ast.Name):
+                            pairs = [(a_.targets[0], a_.value)]
+                        elif isinstance(a_.targets[0], ast.Tuple) and isinstance(a_.value, ast.Tuple) and len(a_.targets[0].elts) == len(a_.value.elts):
+                            pairs = [(t_, v_) for t_, v_ in zip(a_.targets[0].elts, a_.value.elts) if isinstance(t_, ast.Name)]
+                        for t_, v_ in pairs:
+                            if src(v_, 200) in aliases:
+                                aliases.add(t_.id)
             for st in n.body:
                 for c in ast.walk(st):
-                    if isinstance(c, ast.Call) and isinstance(c.func, ast.Attribute) and c.func.attr in mut and src(c.func.value, 200) == base:
+                    if isinstance(c, ast.Call) and isinstance(c.func, ast.Attribute) and c.func.attr in mut and src(c.func.value, 200) in aliases:
                         # a mutation immediately followed by leaving the loop is harmless
                         hits.append(c)
                     if isinstance(c, ast.Delete) and any(isinstance(t, ast.Subscript) and src(t.value, 200) == base for t in c.targets):
